@@ -533,8 +533,11 @@ def make_shims(world):
         size=size_fn,
         linalg=linalg,
         ndarray=ArrayType("ndarray"),
-        float32="float32",
-        float64="float64",
+        float32=DType("float32", ("float32",)),
+        float64=DType("float64", ("float64",)),
+        floating=DType("floating", ("float32", "float64")),
+        generic=DType("generic", ("float32", "float64")),
+        number=DType("number", ("float32", "float64")),
         int32="int32",
         int64="int64",
         bool_="bool",
@@ -766,6 +769,7 @@ def make_shims(world):
         "functools": functools,
         "itertools": itertools,
         "math": math,
+        "numbers": NS("numbers", Real=DType("Real", ("float32", "float64", "pyfloat")), Number=DType("Number", ("float32", "float64", "pyfloat"))),
         "typing": typing_ns,
         "typing_extensions": typing_ns,
         "collections": NS("collections", abc=abc_ns),
@@ -779,6 +783,85 @@ def make_shims(world):
         "argparse": Opaque("argparse"),
     }
     return shims
+
+
+class DType(str):
+    """dtype / scalar-type marker: a string (so dtype arguments keep working) that also answers isinstance."""
+
+    kinds = ()
+
+    def __new__(cls, name, kinds=()):
+        o = str.__new__(cls, name)
+        o.kinds = tuple(kinds)
+        return o
+
+    def __axi_isinstance__(self, x):
+        return getattr(x, "__axi_kind__", None) in self.kinds
+
+
+class NpScalar(object):
+    """A NumPy floating scalar (configuration-level value) of a given kind."""
+
+    def __init__(self, value, kind):
+        self.v = to_num(value)
+        self.__axi_kind__ = kind
+        self.__axi_is_pyfloat__ = kind == "float64"
+
+    def _o(self, o):
+        if isinstance(o, NpScalar):
+            return o.v
+        if isinstance(o, Arr):
+            return o
+        return o
+
+    def __lt__(self, o):
+        return self.v < self._o(o)
+
+    def __le__(self, o):
+        return self.v <= self._o(o)
+
+    def __gt__(self, o):
+        return self.v > self._o(o)
+
+    def __ge__(self, o):
+        return self.v >= self._o(o)
+
+    def __eq__(self, o):
+        return self.v == self._o(o)
+
+    def __hash__(self):
+        return hash(self.v)
+
+    def __sub__(self, o):
+        return NpScalar(self.v - self._o(o), self.__axi_kind__)
+
+    def __rsub__(self, o):
+        return NpScalar(self._o(o) - self.v, self.__axi_kind__)
+
+    def __add__(self, o):
+        return NpScalar(self.v + self._o(o), self.__axi_kind__)
+
+    __radd__ = __add__
+
+    def __mul__(self, o):
+        return NpScalar(self.v * self._o(o), self.__axi_kind__)
+
+    __rmul__ = __mul__
+
+    def __truediv__(self, o):
+        return NpScalar(Fraction(self.v) / self._o(o), self.__axi_kind__)
+
+    def __float__(self):
+        return float(self.v)
+
+    def item(self):
+        return self.v
+
+    def __format__(self, spec):
+        return str(self.v)
+
+    def __repr__(self):
+        return "np.%s(%s)" % (self.__axi_kind__, self.v)
 
 
 class TransparentContext(object):
